@@ -289,12 +289,15 @@ def c11(tier):
     for sh in shapes:
         for red in (0, 1):
             jobs.append((H('parser', 'HarnessC11RoundTrip'), P('parser'), None, {'params': {'shape': sh, 'redundant': red}, 'label': '%s redundant=%d' % (sh, red), 'job_timeout': 900}))
+    for t in ['a^not^in^b', 'a~+~b~*~c', 'not^a', 'a~?~b~:~c', 'f(~a~,~b~)', '[~a~,~b~]', '{~a~:~b~}', 'a~.b', 'a~?.b', 'a~[~1~:~2~]', 'all(~xs~,~{~#~>~1~}~)',
+              '"s"^matches^"p"', 'a~..~b', '-~a', 'a~**~-~b', 'a^and^not^b', 'a^or^b^and^c', 'a~==~b^in^c', '(~a~)~+~1', 'a^not^in^[~1~]', 'x^contains^y', 'a~?:~b']:
+        jobs.append((H('parser', 'HarnessC11Whitespace'), P('parser'), None, {'params': {'tmpl': t}, 'label': 'whitespace ' + t, 'split_after': 40, 'job_timeout': 900}))
     meta = {
-        'explanation': 'round trip through the REAL parser (parseExpression/parsePrimary/parseConditionalExpression/parsePostfixExpression/next/expect, Token.Is) on token sequences printed from a tree shape with only the parentheses the documented precedence/associativity table requires (and with one redundant pair around a symbolically chosen subterm): every operator is symbolic - its level is forked, the operator within the level is a symbolic index, so binaryOperators[token] is an if-then-else term and the climbing test op.precedence >= precedence is decided by z3; asserted: accepted, and the parsed tree equals the printed tree',
+        'explanation': 'whitespace: token sequences laid out with SYMBOLIC whitespace bytes (space, tab, line break, carriage return; optional where no separator is needed) parse to the same tree as with single spaces. Round trip through the REAL parser (parseExpression/parsePrimary/parseConditionalExpression/parsePostfixExpression/next/expect, Token.Is) on token sequences printed from a tree shape with only the parentheses the documented precedence/associativity table requires (and with one redundant pair around a symbolically chosen subterm): every operator is symbolic - its level is forked, the operator within the level is a symbolic index, so binaryOperators[token] is an if-then-else term and the climbing test op.precedence >= precedence is decided by z3; asserted: accepted, and the parsed tree equals the printed tree',
         'bounds': {'shapes': len(shapes), 'operator nodes per tree': '<= 3 (binary, unary, conditional, member access, index)', 'operators': 'all 23 binary and 4 unary operators'},
-        'outside': ['differential against a full reference parser on arbitrary token sequences (only panic-freedom on token sequences is checked, in C04)', 'calls, builtins/closures, array and map literals, slices in the round trip', 'whitespace (lexer: C12)'],
+        'outside': ['differential against a full reference parser on arbitrary token sequences (only panic-freedom on token sequences is checked, in C04)', 'calls, builtins/closures, array and map literals, slices in the round trip', 'whitespace inside string literals'],
         'assumptions': COMMON_ASSUME + ['the reference precedence table of harness/parser/zz_verif_c11.go states the documented grammar'],
-        'must_reach': ['c11.parsed'],
+        'must_reach': ['c11.parsed', 'c11.ws.parsed'],
     }
     return jobs, meta
 
